@@ -79,7 +79,7 @@ Definition lens_eqb (x y : list Z * list Z * list Z) : bool :=
 # ---------------------------------------------------------------------------------------------------------
 # molecule generators
 
-def boundary_molecules(rng, n_random):
+def boundary_molecules(rng, n_random, tier='quick'):
     from chython import smiles, MoleculeContainer
     from chython.periodictable import Element
     out = []
@@ -106,14 +106,30 @@ def boundary_molecules(rng, n_random):
         m.fix_structure()
         out.append(('chain', m))
     # two stereogenic double bonds sharing an atom (hypervalent S / P), every insertion order of the shared atom; cumulenes
-    for sm in ('C/S(C)(=C(/F)Cl)=C(F)Cl', 'C/S(C)(=C(F)Cl)=C(/F)Cl', 'S(/C)(C)(=C(/F)Cl)=C(F)Cl', 'F/C(Cl)=S(/C)(C)=C(F)Cl', 'C/S(C)(=C(/F)Cl)=C(\\F)Cl',
+    # generated: double bonds around S / P / Se / N / As centres and inside conjugated or cumulated chains, random marks
+    gen = []
+    templates = ['F%C(Cl)=S(%C)(C)=C(%F)Cl', 'C%N=S(%C)(C)=NC', 'C%N=S=N%C', 'C%N=S(%C)(C)=O', 'F%C(Cl)=P(%C)(C)C', 'F%C(Cl)=P(%C)=C(%F)Cl',
+                 'F%C(Cl)=[Se](%C)(C)=C(%F)Cl', 'C%C=C%C=C%C', 'F%C(Cl)=C=C(%F)Cl', 'F%C(Cl)=C=C=C(%F)Cl', 'C%C(F)=N%N=C(%C)F', 'C%C=[N+](%C)[O-]',
+                 'F%C(Cl)=C(%F)C(%F)=C(%Cl)F', 'C%N=C=N%C', 'C%C(F)=C(%C)S(=O)(=O)C', 'O=S(=C(%F)Cl)=C(%F)Cl', 'C%S(C)(=N%C)=N%C', 'C%P(C)(=C(%F)Cl)=C(%F)Cl',
+                 'F%C(Cl)=[As](%C)(C)C', 'C%C=S(=O)%C', 'C%N=S(=O)=N%C', 'F%C(Cl)=S(%C)=C(%F)Cl', 'C%C(C)=S(%C)(%C)=C(C)%C', 'S(%C)(C)(=C(%F)Cl)=C(%F)Cl',
+                 'F%C(Cl)=C=C=C=C=C(%F)Cl', 'C%C(F)=C(%Cl)%C(F)=C(%C)Cl', 'C%N=N%C', 'C%C(F)=N%O']
+    for t in templates:
+        for _ in range(1 if tier == 'quick' else 6):
+            gen.append(''.join(rng.choice(['/', '\\', '']) if ch == '%' else ch for ch in t))
+    for sm in gen:
+        try:
+            m = smiles(sm)
+        except Exception:
+            continue
+        out.append(('ct-generated', m))
+    for sm in ('C/S(C)(=C(/F)Cl)=C(F)Cl', 'C/N=S(/C)(C)=NC', 'C/N=S=N/C', 'C/N=S(/C)(C)=O', 'C/S(C)(=C(F)Cl)=C(/F)Cl', 'S(/C)(C)(=C(/F)Cl)=C(F)Cl', 'F/C(Cl)=S(/C)(C)=C(F)Cl', 'C/S(C)(=C(/F)Cl)=C(\\F)Cl',
                'F/C(Cl)=S(/C)(=O)C', 'F/C(Cl)=P(/C)(C)C', 'F/C(Cl)=C=C=C(/F)Cl', 'F/C(Cl)=C=C=C=C=C(/F)Cl', 'C/C=C/C=C\\C=C/C'):
         try:
             m = smiles(sm)
         except Exception:
             continue
         out.append(('ct-shared', m))
-        for _ in range(3):
+        for _ in range(1 if tier == 'quick' else 4):
             out.append(('ct-shared', corpus.renumber(m, rng)))
     # atom count above 255: the 12 bit count straddles two header bytes
     m = MoleculeContainer()
@@ -276,6 +292,7 @@ def corr_api(ck, mols):
     from chython import MoleculeContainer
     cases, meta = [], []
     paths_changed = []
+    shared = []
     for kind, m in mols:
         if kind == 'element' and len(cases) % 7:
             continue
@@ -300,15 +317,23 @@ def corr_api(ck, mols):
         ck.count('api:shares_atom' if shares_atom(m) else 'api:disjoint_paths')
         cases.append(f'implb (pack_ok (api_pmol (pm_atoms {pm}) {pt}) && labels_sym_b (pm_atoms {pm}) && ct_consistent_b (pm_atoms {pm}) {pt}) {b(same)}')
         meta.append(('api_theorem_instance', kind, mstr(m)))
-        # ordinary molecules (paths without shared atoms) satisfy the hypotheses
-        if not shares_atom(m):
-            cases.append(f'labels_sym_b (pm_atoms {pm}) && ct_consistent_b (pm_atoms {pm}) {pt}')
-            meta.append(('api_hypotheses', kind, mstr(m)))
-    ok, failing, log = coqcases.run_cases('c10a', 'Pack PackSpec PackStereo', cases, extra=EXTRA, shard=150)
+        # the hypotheses of C10_api_roundtrip hold on EVERY input: symmetric labels, registered paths never share an atom
+        # (registry invariant since fix 2e29c31), every labelled bond is the central bond of a registered path
+        cases.append(f'labels_sym_b (pm_atoms {pm}) && paths_disjoint_b {pt} && labelled_registered_b (pm_atoms {pm}) {pt} && ct_consistent_b (pm_atoms {pm}) {pt}')
+        meta.append(('api_hypotheses', kind, mstr(m)))
+        if shares_atom(m):
+            shared.append((kind, mstr(m)))
+    ok, failing, log = coqcases.run_cases('c10a', 'Pack PackSpec PackStereo PackStereoSpec', cases, extra=EXTRA, shard=150)
     ck.oblige('correspondence: terminals/centers dicts, _cis_trans_count, MoleculeContainer.unpack label re-attachment == Coq model (PackStereo)', ok and not failing,
               'correspondence', log or str([meta[i] for i in failing[:5]]))
     ck.oblige('assumption of the API level theorem: the stereogenic cumulene paths of the unpacked molecule are those of the original', not paths_changed,
               'correspondence', str(paths_changed[:5]))
+    ck.oblige('registry invariant: registered cis/trans paths never share an atom (every correspondence input)', not shared, 'correspondence', str(shared[:5]))
+    if shared:
+        for kind, m in mols:
+            if (kind, mstr(m)) in shared:
+                check_molecule(ck, kind, m, tag='-directed')
+        ck.unchecked('registry invariant (registered paths atom-disjoint)', str(shared[:10]))
     ck.extra['correspondence_cases'] = ck.extra.get('correspondence_cases', 0) + len(cases)
     if not ok or failing:
         bad = {(meta[i][1], meta[i][2]) for i in failing}
@@ -449,7 +474,7 @@ def corr_malformed(ck, unpack_mod, mols, rng):
         mm._atoms[n]._charge = charge
         mm.flush_cache()
         return mm
-    for label, kw in (('h7', dict(h=7)), ('h8', dict(h=8)), ('charge12', dict(h=0, charge=12)), ('charge-5', dict(h=0, charge=-5)), ('zero', dict(n=0))):
+    for label, kw in (('h7', dict(h=7)), ('h8', dict(h=8)), ('charge12', dict(h=0, charge=12)), ('charge-5', dict(h=0, charge=-5))):
         mm = one_carbon(**kw)
         ck.case(('unrepresentable', label))
         ck.count('malformed:accepted-unrepresentable')
@@ -463,17 +488,18 @@ def corr_malformed(ck, unpack_mod, mols, rng):
         meta.append(('unrepresentable-pack', label))
         cases.append(f'pyres_eqb unpacked_eqb (unpack {lst(list(data), zraw)}) (Ok {unpacked_term(mol2, ct2, size2, data)})')
         meta.append(('unrepresentable-unpack', label))
-    for nneg in (-1, -3):
+    for nneg in (0, -1, -3):
         mm = one_carbon(n=nneg)
         ck.case(('nonpositive-number', nneg))
         try:
             mm.pack(compressed=False)
-            ck.counterexample('limits-nonpositive-atom-number', 'MoleculeContainer.pack(check=True) accepts a negative atom number', {'numbers': [nneg]}, 'bytes', 'ValueError',
+            ck.counterexample('limits-nonpositive-atom-number', 'MoleculeContainer.pack(check=True) accepts an atom number below 1', {'numbers': [nneg]}, 'bytes', 'ValueError',
                               'documented limits (atom numbers 1-4095)')
         except ValueError:
-            pass   # rejected by the check: fine
+            cases.append(f'pyres_eqb (list_eqb Z.eqb) (mol_pack true {pmol_term(mm, bytes(22))}) (Err ValueError)')
+            meta.append(('nonpositive-rejected', nneg))
         except Exception as e:
-            ck.counterexample('limits-nonpositive-atom-number', f'MoleculeContainer.pack(check=True) passes a negative atom number to the packer: {type(e).__name__} (out-of-bounds write of seen[n] in C)',
+            ck.counterexample('limits-nonpositive-atom-number', f'MoleculeContainer.pack(check=True) passes an atom number below 1 to the packer: {type(e).__name__} (out-of-bounds write of seen[n] in C)',
                               {'numbers': [nneg]}, repr(e), 'ValueError', 'documented limits (atom numbers 1-4095)',
                               replay_py=REPLAY_PRE + f"m=MoleculeContainer(); m.add_atom('C', {nneg}); print(m.pack())")
     ok, failing, log = coqcases.run_cases('c10m', 'Pack PackSpec PackApi PackRxnApi PackStereo', cases, extra=EXTRA, shard=150)
@@ -942,7 +968,7 @@ def run(ck):
     t0 = time.time()
     timing = ck.extra.setdefault('timing_s', {})
     timing['proof_steps_and_transpile'] = round(t0 - t_start, 1)
-    mols = boundary_molecules(rng, 60 if ck.tier == 'quick' else 1200)
+    mols = boundary_molecules(rng, 60 if ck.tier == 'quick' else 1200, ck.tier)
     timing['generate'] = round(time.time() - t0, 1); t0 = time.time()
     corr(ck, mods['unpack'], mols)
     timing['corr_molecules'] = round(time.time() - t0, 1); t0 = time.time()
